@@ -509,7 +509,7 @@ func (s *Scenario) buildWorld(W string, src []byte, image []byte) (*worldPaths, 
 	case "barename": // a bare file name in the current directory, with an unusual first character
 		srcName = pick(r, []string{"01_hello.nas", "3d.nas", "2", "+x.nas", "=a.nas", "@file.nas", "~tilde.nas", ".hidden.nas", "a b.nas", "名前.nas", "1",
 			`in\boot.nas`, `src\x.nas`, "c:x.nas", "$x.nas", "x;y.nas", "%s.nas", "*.nas", "x?.nas", "[x].nas", "x'y\".nas", "x.NAS", "x.nas.", "x.nas "})
-		if strings.HasSuffix(s.ArgPrefix, "--") && s.Seed%2 == 0 {
+		if strings.HasSuffix(s.ArgPrefix, "--") && s.prefixApplies() && s.Seed%2 == 0 {
 			srcName = pick(r, []string{"-boot.nas", "-d", "--x.nas", "-"}) // after "--" a name may begin with a dash
 		}
 		srcAbs = filepath.Join(W, srcName)
@@ -767,13 +767,19 @@ func (s *Scenario) buildWorld(W string, src []byte, image []byte) (*worldPaths, 
 	return wp, nil
 }
 
+// prefixApplies: the argv shape begins with the file arguments, so ArgPrefix can go in front of them.
+func (s *Scenario) prefixApplies() bool {
+	switch s.Shape {
+	case "none", "src", "src-dst", "src-dst-lst", "four", "src-dst-dashlst", "src-dst-v":
+		return s.ArgPrefix != ""
+	}
+	return false
+}
+
 func (s *Scenario) argv(wp *worldPaths) []string {
 	a := s.argv0(wp)
-	if s.ArgPrefix != "" {
-		switch s.Shape {
-		case "none", "src", "src-dst", "src-dst-lst", "four", "src-dst-dashlst", "src-dst-v":
-			a = append(strings.Fields(s.ArgPrefix), a...)
-		}
+	if s.prefixApplies() {
+		a = append(strings.Fields(s.ArgPrefix), a...)
 	}
 	return a
 }
@@ -858,7 +864,7 @@ func mountFs(kind, dir string, size int) bool {
 	case "tmpfs_small", "tmpfs_full":
 		args = []string{"-t", "tmpfs", "-o", fmt.Sprintf("size=%d,mode=0777", size), "verifsim", dir}
 	case "tmpfs_noinodes":
-		args = []string{"-t", "tmpfs", "-o", fmt.Sprintf("size=%d,nr_inodes=8,mode=0777", size), "verifsim", dir}
+		args = []string{"-t", "tmpfs", "-o", fmt.Sprintf("size=%d,nr_inodes=48,mode=0777", size), "verifsim", dir} // (room for the clutter names; fillInodes takes the rest)
 	default:
 		panic(modelErr("unknown fs " + kind))
 	}
@@ -943,6 +949,10 @@ func (s *Scenario) expect(imageClass string, nlines int, fired int) expectation 
 	}
 	if s.fsActive && s.Fs == "tmpfs_full" {
 		e.Why = "no free block on the output file system: only G1/G2"
+		return e
+	}
+	if s.fsFault() && s.DstFd != "" {
+		e.Why = "the shell that opens the descriptor cannot create the file either: only G1/G2"
 		return e
 	}
 	if s.Stdout == "deadpipe" {
